@@ -225,3 +225,47 @@ example : (exec demoProg ⟨demoState, []⟩).1.state = demoState := by decide
 example : (exec demoProg ⟨demoState, []⟩).2.out = .tableException := by decide
 
 end Biom.C20
+
+/-! ### the save/restore idiom of `seterrcall` -/
+
+namespace Biom.C20
+
+theorem setCall_lookup_self (calls : List (Kind × Nat)) (k : Kind) (cb : Nat) :
+    (setCall calls k cb).lookup k = some cb := by
+  simp [setCall]
+
+theorem setCall_lookup_other (calls : List (Kind × Nat)) (k k' : Kind) (cb : Nat) (h : k' ≠ k) :
+    (setCall calls k cb).lookup k' = calls.lookup k' := by
+  have hb : (k' == k) = false := by simpa using h
+  simp only [setCall, List.lookup, hb]
+  induction calls with
+  | nil => rfl
+  | cons kc rest ih =>
+    obtain ⟨a, b⟩ := kc
+    by_cases hak : a = k
+    · subst hak
+      have hb' : (k' == a) = false := by simpa using h
+      simp [List.filter, List.lookup, hb', ih]
+    · have : ((a, b).1 != k) = true := by simpa using hak
+      simp only [List.filter, this, List.lookup]
+      cases hk : (k' == a) <;> simp [ih]
+
+/-- registering a callback and then putting back the one that was registered before (what the first
+`seterrcall` returned) leaves every kind with the callback it had: each later trigger reacts as if neither
+call had happened. Callback 0 stands for "none registered" (quiet under 'call'). -/
+theorem seterrcall_save_restore (calls : List (Kind × Nat)) (k : Kind) (cb : Nat) (k' : Kind) :
+    ((setCall (setCall calls k cb) k ((calls.lookup k).getD 0)).lookup k').getD 0
+      = (calls.lookup k').getD 0 := by
+  by_cases h : k' = k
+  · subst h; rw [setCall_lookup_self]; rfl
+  · rw [setCall_lookup_other _ _ _ _ h, setCall_lookup_other _ _ _ _ h]
+
+/-- … and therefore the reaction to any trigger is the same as before the two calls -/
+theorem react_after_save_restore (p : Profile) (k : Kind) (cb : Nat) (trig : List Kind) :
+    react { p with calls := setCall (setCall p.calls k cb) k ((p.calls.lookup k).getD 0) } trig = react p trig := by
+  unfold react
+  cases firstTriggered p.state trig with
+  | none => rfl
+  | some k' => simp only [seterrcall_save_restore]
+
+end Biom.C20
